@@ -113,11 +113,17 @@ def body(scn):
                 sample=dict(runlevel.small(scn), ncalls=len(tr.calls), fval=None if tr.result is None else tr.result["fval"]))
 
 
+# the statement is conditioned on the default incumbent-update policy: sloppy_improvement=False accepts only improvements above a threshold
+ADV_EXCLUDE = ("sloppy_improvement",)
+
+
 def plan(tier):
-    return [("runs", 16)]
+    return [("runs", 16), ("advopts", 16)]
 
 
 def run_part(res, part, tier, seed, shard, nshards):
+    if part == "advopts":
+        return runlevel.adv_sweep(res, PROFILE, tier, seed, shard, nshards, body, exclude=ADV_EXCLUDE)
     runlevel.sweep(res, PROFILE if tier == "quick" else PROFILE_T, N[tier], seed, shard, nshards, body)
 
 
